@@ -52,7 +52,7 @@ AddOp(a, b) ==
 ScaleOp(n, d, a) == IF IsErr(a) THEN ErrT ELSE MatMulT(Hom(n, d, OutS(a)), a)
 NegOp(a) ==
   IF IsErr(a) THEN ErrT
-  ELSE IF a.k = "add" THEN AddT([i \in 1..Len(a.ch) |-> ScaleOp(-1, 1, a.ch[i])])
+  ELSE IF a.k = "add" THEN AddT(TLCEval([i \in 1..Len(a.ch) |-> ScaleOp(-1, 1, a.ch[i])]))
   ELSE ScaleOp(-1, 1, a)
 SubOp(a, b) == IF IsErr(a) \/ IsErr(b) \/ ~StructsAgree(a, b) THEN ErrT ELSE AddOp(a, NegOp(b))
 DivOp(a, n, d) == ScaleOp(d, n, a)
@@ -70,7 +70,7 @@ RotKinds == {"rot", "rotT"}
 ReshapeKinds == {"reshape", "ravel"}
 IndexUnique(t) == t.p[1] = 1
 \* exact selection multiplicities of a 1-D index operator on a leaf of length n
-Multiplicities(n, idx) == [j \in 1..n |-> Len(SelectSeq(idx, LAMBDA x : NormAxis(x, n) = j - 1))]
+Multiplicities(n, idx) == TLCEval([j \in 1..n |-> Len(SelectSeq(idx, LAMBDA x : NormAxis(x, n) = j - 1))])
 LeafShapes(s) == {Leaves(s)[i].sh : i \in 1..NLeaves(s)}
 
 BlockRulePair(l, r) ==
@@ -123,13 +123,13 @@ Rewrite(name, l, r) ==
     [] name \in {"BlockRowBlockDiagonalRule", "BlockDiagonalBlockColumnRule",
                  "BlockDiagonalBlockDiagonalRule"} ->
          IF TreeDef(l.s) # TreeDef(r.s) \/ Len(l.ch) # Len(r.ch) THEN <<ErrT>>   \* tree_map raises
-         ELSE LET prods == [i \in 1..Len(l.ch) |-> MatMulT(l.ch[i], r.ch[i])]
+         ELSE LET prods == TLCEval([i \in 1..Len(l.ch) |-> MatMulT(l.ch[i], r.ch[i])])
                   kind == IF name = "BlockRowBlockDiagonalRule" THEN "brow"
                           ELSE IF name = "BlockDiagonalBlockColumnRule" THEN "bcol" ELSE "bdiag"
               IN <<Reduce(Term(kind, 0, l.s, <<>>, prods))>>
     [] name = "BlockRowBlockColumnRule" ->
          IF TreeDef(l.s) # TreeDef(r.s) \/ Len(l.ch) # Len(r.ch) THEN <<ErrT>>
-         ELSE <<Reduce(AddT([i \in 1..Len(l.ch) |-> MatMulT(l.ch[i], r.ch[i])]))>>
+         ELSE <<Reduce(AddT(TLCEval([i \in 1..Len(l.ch) |-> MatMulT(l.ch[i], r.ch[i])])))>>
     [] name = "TransposeIndexRule" ->
          <<Term("diag", 0, r.s, Multiplicities(Leaves(r.s)[1].sh[1], Tail(r.p)), <<>>)>>
 
@@ -197,18 +197,18 @@ Scan(operands) == ScanRun(ScanInit(operands))
 Reduce(t) ==
   CASE IsErr(t) -> ErrT
     [] t.k = "comp" ->
-         LET ops == Scan([i \in 1..Len(t.ch) |-> Reduce(t.ch[i])])
+         LET ops == Scan(TLCEval([i \in 1..Len(t.ch) |-> Reduce(t.ch[i])]))
          IN IF HasErr(ops) THEN ErrT
             ELSE IF Len(ops) = 0 THEN Id(InS(t))
             ELSE IF Len(ops) = 1 THEN ops[1] ELSE Comp(ops)
     [] t.k = "add" ->
-         LET rs == [i \in 1..Len(t.ch) |-> Reduce(t.ch[i])]
+         LET rs == TLCEval([i \in 1..Len(t.ch) |-> Reduce(t.ch[i])])
          IN IF HasErr(rs) THEN ErrT ELSE IF Len(rs) = 1 THEN rs[1] ELSE AddT(rs)
     [] t.k \in {"brow", "bcol"} ->
-         LET rs == [i \in 1..Len(t.ch) |-> Reduce(t.ch[i])]
+         LET rs == TLCEval([i \in 1..Len(t.ch) |-> Reduce(t.ch[i])])
          IN IF HasErr(rs) THEN ErrT ELSE [t EXCEPT !.ch = rs, !.id = 0]
     [] t.k = "bdiag" ->
-         LET rs == [i \in 1..Len(t.ch) |-> Reduce(t.ch[i])]
+         LET rs == TLCEval([i \in 1..Len(t.ch) |-> Reduce(t.ch[i])])
          IN IF HasErr(rs) THEN ErrT
             ELSE IF \A i \in 1..Len(rs) : rs[i].k = "id" THEN Id(InS(t))
             ELSE [t EXCEPT !.ch = rs, !.id = 0]
@@ -230,7 +230,7 @@ Inverse(t) ==
     [] t.k = "mvax" -> Transpose(t)
     [] t.k = "bdiag" ->
          IF \A i \in 1..Len(t.ch) : InS(t.ch[i]) = OutS(t.ch[i])
-         THEN LET inv == [i \in 1..Len(t.ch) |-> Inverse(t.ch[i])]
+         THEN LET inv == TLCEval([i \in 1..Len(t.ch) |-> Inverse(t.ch[i])])
               IN IF HasErr(inv) THEN ErrT ELSE Term("bdiag", 0, t.s, <<>>, inv)
          ELSE LazyInverse(t)
     [] OTHER -> LazyInverse(t)
